@@ -89,9 +89,11 @@ def answer (line : String) : String :=
   | ["reach", src] =>
     match src.toNat? with
     | some n =>
-      let r := Flow.reachable VtlModel.Gen.Effects.graph n
-      let ms := VtlModel.Gen.Effects.mutationSites.filter (fun m => r.contains m)
-      if ms.isEmpty then "-" else " ".intercalate (ms.map toString)
+      match Flow.closureOf VtlModel.Gen.Effects.graph [n] with
+      | some r =>
+        let ms := VtlModel.Gen.Effects.mutationSites.filter (fun m => Flow.mem r m)
+        if ms.isEmpty then "-" else " ".intercalate (ms.map toString)
+      | none => "(out-of-fuel)"
     | none => "(bad-request)"
   | ["path", src, dst] =>
     match src.toNat?, dst.toNat? with
@@ -100,13 +102,12 @@ def answer (line : String) : String :=
       | some p => " ".intercalate (p.map toString)
       | none => "-"
     | _, _ => "(bad-request)"
-  | ["sdmx"] => "ok "
   | _ => "(bad-request)"
 
 partial def loop (h : IO.FS.Stream) (out : IO.FS.Stream) : IO Unit := do
   let line ← h.getLine
   if line.isEmpty then return ()
-  let l := (line.dropRightWhile (fun c => c = '\n' || c = '\r'))
+  let l := String.ofList (line.toList.filter (fun c => c != '\n' && c != '\r'))
   out.putStrLn (answer l)
   loop h out
 
